@@ -772,7 +772,7 @@ class Runner:
                 if key in ctx.violations:
                     ctx.violations[key]["count"] += 1
                     continue
-            if self.minimised >= (400 if ctx.tier == "quick" else 3000):
+            if self.minimised >= (150 if ctx.tier == "quick" else 1500):
                 ctx.count("violations_beyond_minimisation_cap")
                 key = f"{clause}:{self.mechanism(clause, source, templates, data, mode, flavour)}"
                 ctx.violation(key, what, self.witness(source, templates, data, mode, flavour,
